@@ -118,6 +118,11 @@ def judge(case, run, model_out):
             kn.compare_with_exact(orders, words, model[3], check_order=not (case.renumber or case.intermediate), what="model")
         if msg:
             corr = ("correspondence:" + ("discounts" if "printed D" in msg else "arpa"), msg)
+    if (ofail or corr) and borderline(clean, case, prune):
+        # a closed-form discount sits on the boundary of its accepted range (e.g. exactly 0): float and exact arithmetic may
+        # legitimately choose differently between the closed form and the fallback; nothing can be concluded from this case
+        info["kind"] = "borderline-discount"
+        return None, None, info
     info["pruned"] = any(oracle[1][k] < len(o) for k, o in enumerate([[1] * c for c in run_counts(run)]))
     info["fallback_used"] = ("Substituting fallback discounts" in run.err)
     return ofail, corr, info
@@ -168,7 +173,7 @@ def run(ctx):
     rng = ctx.rng
     cases = corpus_cases()
     ctx.count("corpus_cases", len(cases))
-    ngen = ctx.pick(700, 3000)
+    ngen = ctx.pick(700, 8000)
     big = not ctx.quick
     cases += [kn.gen_case(rng, big) for _ in range(ngen)]
     res = check_cases(ctx, cases, lmplz, model)
